@@ -9,6 +9,16 @@ import json, os, shutil, subprocess, sys, concurrent.futures as cf
 SRC = os.environ.get("REFAC_SRC", "/tmp/refac")
 DST = "/verif/refactors"
 PY = "/venv/bin/python"
+# the checks run from a private snapshot of the checker sources, so that editing /verif/sa while a confirmation runs cannot leak half-edited modules into it
+SNAP = "/tmp/verif_snap_%d" % os.getpid()
+
+
+def snapshot():
+    shutil.rmtree(SNAP, ignore_errors=True)
+    os.makedirs(SNAP)
+    shutil.copytree("/verif/sa", SNAP + "/sa", ignore=shutil.ignore_patterns("__pycache__"))
+    for f in ("check.py", "known_findings.json", "properties.jsonl", "MANIFEST.json"):
+        shutil.copy("/verif/" + f, SNAP + "/" + f)
 ALL = [c["property_id"] for c in json.load(open("/verif/MANIFEST.json"))["checks"]]
 
 
@@ -34,7 +44,7 @@ def work(item):
         e2 = dict(os.environ, VERIF_OUT_DIR="/tmp/verif_scratch_out/ref_%s_%s" % (tag, rk))
         alarms = {}
         for p in ALL:
-            rc, out = sh("%s /verif/check.py %s --root %s" % (PY, p, wt), env=e2)
+            rc, out = sh("%s %s/check.py %s --root %s" % (PY, SNAP, p, wt), env=e2)
             if rc != 0:
                 lines = [l.strip()[:300] for l in out.splitlines() if l.startswith("ANALYSIS-ERROR") or l.strip().startswith("rule ")]
                 alarms[p] = {"exit": rc, "lines": lines[:4]}
@@ -46,6 +56,7 @@ def work(item):
 
 
 def main():
+    snapshot()
     items = []
     for tag in sorted(os.listdir(SRC)):
         for rk in sorted(os.listdir(os.path.join(SRC, tag))):
@@ -67,4 +78,7 @@ def main():
 
 
 if __name__ == "__main__":
-    main()
+    try:
+        main()
+    finally:
+        shutil.rmtree(SNAP, ignore_errors=True)
